@@ -44,10 +44,24 @@ func loadKnown() (kf []knownFinding) {
 	return
 }
 
+// propDeps: a property whose statement is built on another one also runs the
+// obligations filed under that one (the DNS answer is only right if Match,
+// the precedence rules and $badfilter handling are).
+var propDeps = map[string][]string{
+	"C02": {"C04", "C06", "C07", "C08"},
+	"C01": {"C04"},
+	"C19": {"C04"},
+}
+
 func hasProp(ps []string, p string) bool {
 	for _, x := range ps {
 		if x == p {
 			return true
+		}
+		for _, d := range propDeps[p] {
+			if x == d {
+				return true
+			}
 		}
 	}
 	return false
